@@ -17,6 +17,12 @@ func deployContainerOnly() {
 	vDeploy("container", false, vContractHash("netmap"), vContractHash("balance"), vContractHash("neofsid"), vContractHash("nns"), "container")
 }
 
+func alphaC2(contract, method string, args ...any) bool {
+	vSign(vAlphabetAcct(), true)
+	ok, _ := vInvoke(contract, method, args...)
+	return ok
+}
+
 func batch(tag string, n int) []any {
 	ks := []any{}
 	for i := 0; i < n; i++ {
@@ -99,11 +105,17 @@ func VerifC14Interleaved() {
 	deployContainerOnly()
 	tags := []string{"p", "q", "r", "s", "t", "u"}
 	var want [3][]any
-	started := 0
+	started, epochs := 0, 0
 	for i := 0; i < 6; i++ {
 		v := vParam(i)
 		if v == 9 {
 			break
+		}
+		if v == 8 { // an epoch tick in the middle of the roster update: Netmap tells Container the new epoch
+			// (estimation clean-up); the pending roster is none of its business
+			epochs++
+			vAssume(alphaC2("netmap", "newEpoch", epochs))
+			continue
 		}
 		ks := batch(tags[i], 2)
 		vAssume(alphaC("addNextEpochNodes", cid14, v, ks))
